@@ -6,6 +6,7 @@ classes over a stub calculator and Calculator.write_output() on synthetic data s
 set, labels and values are compared with the model's prediction inside Coq.  Search stage: an oracle
 written from the property statement (own pattern substitution, Fraction unit factors).
 """
+import copy
 import os
 import shutil
 from fractions import Fraction as Fr
@@ -504,6 +505,7 @@ def run(ctx):
         """entry_lists: {base_name: [list of entries-lists]}; returns coq text for one shard"""
         txt = [HEADER, "Local Open Scope float_scope."]
         cases, grids = [], []
+        asked_lists = copy.deepcopy(entry_lists)      # taken before any writer has seen the entries
         for base_name, base in (("tp", calc.pressure_base), ("tv", calc.volume_base)):
             mem = snapshot(base)
             t = np.asarray(base.t_array, dtype=float)
@@ -529,7 +531,11 @@ def run(ctx):
 
                 def action(entries=entries, writer_base=writer_base):
                     writer_base.write_variables(entries)
+                asked = asked_lists[base_name][n]   # expectations come from the request as made, not as left behind
                 files, err = run_entries(action, wd)
+                if entries != asked:
+                    ctx.count("writer modified the caller's entry")
+                entries = asked
                 parsed = None
                 if err is None:
                     parsed = {}
@@ -606,6 +612,12 @@ def run(ctx):
             # several entries in one write_variables call (as the output section does)
             el += [["cij", "cij_t", "bm_VRH", dict(keyword="G_V", fname="g.txt"), "vs", "p"]]
             lists[b] = el
+        # ONE entry object requested from both bases (a YAML anchor shared by output.pressure_base and
+        # output.volume_base parses to exactly this): each base must still write its own file
+        for shared in (dict(keyword="bm_VRH", unit="kbar"), dict(keyword="vs")):
+            lists["tp"].append([shared])
+            lists["tv"].append([shared])
+        ctx.count("entry object shared by both bases", 2)
         cross_files.clear()
         observe_cases("stub%d" % gi, calc, grid, keys, lists)
         oracle.cross("stub%d" % gi, cross_files)
